@@ -152,3 +152,16 @@ def str_table_view(payload, w):
     except RefError:
         return {}
     return {i: resolve_string(payload, w, i) for i in range(1, n + 1)}
+
+
+def resolve_string_at(payload, off, strict7=True):
+    """bytes from `off` to the next NUL; None if out of range / unterminated (/ not 7-bit)"""
+    if payload is None or off < 0 or off >= len(payload):
+        return None
+    end = payload.find(b"\x00", off)
+    if end < 0:
+        return None
+    t = payload[off:end]
+    if strict7 and any(b >= 128 for b in t):
+        return None
+    return t
